@@ -52,16 +52,71 @@ func init() {
 		if err != nil {
 			return "err", err.Error()
 		}
-		if a["mutate"] == "1" {
-			if len(mv.b) > 0 {
-				mv.b[0] ^= 0xff
-			}
-			mv.b = append(mv.b, []byte("-the-next-update")...)
+		// a caller that prepares several updates first and writes them afterwards: every result is held
+		// while the later ones are signed (same goroutine, same process) and marshalled only at the end
+		type held struct {
+			m      efivar.Marshallable
+			mv     *mutValue
+			t0, t1 time.Time
 		}
-		var buf bytes.Buffer
-		m.Marshal(&buf)
-		return "ok", fmt.Sprintf("%s %d %d %s", hx(buf.Bytes()), t0.Unix(), t1.Unix(), hx(m.Bytes()))
+		all := []held{{m, mv, t0, t1}}
+		for k, it := range c06ParseThen(a["then"]) {
+			g := guidFromWire(it.guid)
+			kv := efivar.Efivar{Name: string(it.name), GUID: &g, Attributes: attributes.Attributes(it.attrs)}
+			kkey := poolKeyDir(a["verif"], 2048, it.key)
+			kcert := makeRSACert(kkey, certShapes(nil)[it.shape%len(certShapes(nil))])
+			kmv := &mutValue{b: it.payload}
+			k0 := time.Now().UTC()
+			_, km, err := signature.SignEFIVariable(kv, kmv, kkey, kcert)
+			k1 := time.Now().UTC()
+			if err != nil {
+				return "err", fmt.Sprintf("update %d of the sequence: %v", k+1, err)
+			}
+			all = append(all, held{km, kmv, k0, k1})
+		}
+		var lines []string
+		for _, h := range all {
+			if a["mutate"] == "1" {
+				if len(h.mv.b) > 0 {
+					h.mv.b[0] ^= 0xff
+				}
+				h.mv.b = append(h.mv.b, []byte("-the-next-update")...)
+			}
+			var buf bytes.Buffer
+			h.m.Marshal(&buf)
+			lines = append(lines, fmt.Sprintf("%s %d %d %s", hx(buf.Bytes()), h.t0.Unix(), h.t1.Unix(), hx(h.m.Bytes())))
+		}
+		return "ok", strings.Join(lines, "\n")
 	}
+}
+
+// c06Upd is one update of a sequence signed by one caller: what is signed and by whom
+type c06Upd struct {
+	name, guid, payload []byte
+	attrs               uint32
+	key, shape          int
+}
+
+// the later updates of a sequence travel as "name,guid,attrs,payload,key,shape;..." (hex fields)
+func c06FormatThen(us []c06Upd) string {
+	var parts []string
+	for _, u := range us {
+		parts = append(parts, fmt.Sprintf("%s,%s,%d,%s,%d,%d", hx(u.name), hx(u.guid), u.attrs, hx(u.payload), u.key, u.shape))
+	}
+	return strings.Join(parts, ";")
+}
+
+func c06ParseThen(s string) []c06Upd {
+	var us []c06Upd
+	for _, p := range strings.Split(s, ";") {
+		f := strings.Split(p, ",")
+		if len(f) != 6 {
+			continue
+		}
+		at, _ := strconv.ParseUint(f[2], 10, 32)
+		us = append(us, c06Upd{name: unhx(f[0]), guid: unhx(f[1]), attrs: uint32(at), payload: unhx(f[3]), key: atoi(f[4]), shape: atoi(f[5])})
+	}
+	return us
 }
 
 // mutValue is a Marshallable the caller keeps using after the call
@@ -108,23 +163,38 @@ func c06Worker(c *Ctx, tz string) *Worker {
 
 func c06Eval(c *Ctx, cs Case) {
 	tz := cs.S("tz")
-	name := unhx(cs.S("name"))
-	guid := unhx(cs.S("guid"))
-	payload := unhx(cs.S("payload"))
-	attrs := uint32(cs.I("attrs"))
-	keyIdx, shape := int(cs.I("key")), int(cs.I("shape"))
-	c.Count(cs.Key(), true, fmt.Sprintf("varsign/%s/%s/payload%s", tz, cs.S("class"), sizeClass(len(payload))))
+	first := c06Upd{name: unhx(cs.S("name")), guid: unhx(cs.S("guid")), payload: unhx(cs.S("payload")), attrs: uint32(cs.I("attrs")), key: int(cs.I("key")), shape: int(cs.I("shape"))}
+	seq := append([]c06Upd{first}, c06ParseThen(cs.S("then"))...)
+	c.Count(cs.Key(), true, fmt.Sprintf("varsign/%s/%s/payload%s", tz, cs.S("class"), sizeClass(len(first.payload))))
 	c.Sample(cs)
-	res := c06Worker(c, tz).Do("var.sign", map[string]string{"verif": c.VerifDir, "key": fmt.Sprint(keyIdx), "shape": fmt.Sprint(shape), "name": hx(name), "guid": hx(guid),
-		"attrs": fmt.Sprint(attrs), "payload": hx(payload), "slow": fmt.Sprint(cs.I("slow")), "busy": fmt.Sprint(cs.I("busy")), "mutate": fmt.Sprint(cs.I("mutate"))}, 20*time.Second)
-	fail := func(what, goObs, spec, matcher string) {
-		c.Fail(Failure{Kind: "property", Matcher: matcher, What: what, Case: cs, Go: clip(goObs), Spec: clip(spec)})
-	}
+	res := c06Worker(c, tz).Do("var.sign", map[string]string{"verif": c.VerifDir, "key": fmt.Sprint(first.key), "shape": fmt.Sprint(first.shape), "name": hx(first.name), "guid": hx(first.guid),
+		"attrs": fmt.Sprint(first.attrs), "payload": hx(first.payload), "slow": fmt.Sprint(cs.I("slow")), "busy": fmt.Sprint(cs.I("busy")), "mutate": fmt.Sprint(cs.I("mutate")), "then": cs.S("then")}, 20*time.Second)
 	if res.Class != "ok" {
-		fail("SignEFIVariable did not return a signed update", res.Class+" "+res.Out+res.Panic, "ok", "")
+		c.Fail(Failure{Kind: "property", What: "SignEFIVariable did not return a signed update", Case: cs, Go: clip(res.Class + " " + res.Out + res.Panic), Spec: "ok"})
 		return
 	}
-	f := strings.Fields(res.Out)
+	lines := strings.Split(res.Out, "\n")
+	if len(lines) != len(seq) {
+		c.Fail(Failure{Kind: "property", What: "the worker did not hand back one result per update of the sequence", Case: cs, Go: fmt.Sprint(len(lines)), Spec: fmt.Sprint(len(seq))})
+		return
+	}
+	// every update of the sequence is held to the same statement, whenever its bytes are taken: the
+	// earlier ones were marshalled only after the later ones had been signed
+	for k, u := range seq {
+		where := ""
+		if len(seq) > 1 {
+			where = fmt.Sprintf("update %d of %d signed by one caller, all marshalled after the last was signed: ", k+1, len(seq))
+		}
+		c06CheckUpdate(c, cs, tz, where, u, strings.Fields(lines[k]))
+	}
+}
+
+// c06CheckUpdate holds the bytes of one signed update against the layout and binding of the property
+func c06CheckUpdate(c *Ctx, cs Case, tz, where string, u c06Upd, f []string) {
+	name, guid, payload, attrs, keyIdx, shape := u.name, u.guid, u.payload, u.attrs, u.key, u.shape
+	fail := func(what, goObs, spec, matcher string) {
+		c.Fail(Failure{Kind: "property", Matcher: matcher, What: where + what, Case: cs, Go: clip(goObs), Spec: clip(spec)})
+	}
 	if len(f) != 4 {
 		return
 	}
@@ -283,8 +353,21 @@ func c06Gen(c *Ctx) {
 		for n := 0; n < c.N(14, 1500) && c.NFailures() < 6; n++ {
 			v := names[(i+n)%len(names)]
 			p := pk[c.Rng.Intn(len(pk))]
-			c06Eval(c, Case{"op": "varsign", "tz": tz, "class": p, "name": hx([]byte(v.name)), "guid": hx(v.guid), "attrs": int64(masks[c.Rng.Intn(len(masks))]),
-				"payload": hx(payloads[p]), "key": int64(c.Rng.Intn(2)), "shape": int64(c.Rng.Intn(9)), "mutate": int64(n % 2), "busy": int64([]int{0, 0, 0, 1, 2}[n%5])})
+			cs := Case{"op": "varsign", "tz": tz, "class": p, "name": hx([]byte(v.name)), "guid": hx(v.guid), "attrs": int64(masks[c.Rng.Intn(len(masks))]),
+				"payload": hx(payloads[p]), "key": int64(c.Rng.Intn(2)), "shape": int64(c.Rng.Intn(9)), "mutate": int64(n % 2), "busy": int64([]int{0, 0, 0, 1, 2}[n%5])}
+			if n%3 == 2 {
+				// a caller that signs two or three updates (other variables, other payloads - smaller, equal
+				// and larger ones -, possibly another key) and only then writes them out
+				var then []c06Upd
+				class := p + "/then"
+				for k := 0; k < 1+c.Rng.Intn(2); k++ {
+					kv, kp := names[c.Rng.Intn(len(names))], pk[c.Rng.Intn(len(pk))]
+					then = append(then, c06Upd{name: []byte(kv.name), guid: kv.guid, attrs: masks[c.Rng.Intn(len(masks))], payload: payloads[kp], key: c.Rng.Intn(2), shape: c.Rng.Intn(9)})
+					class += "-" + kp
+				}
+				cs["class"], cs["then"] = class, c06FormatThen(then)
+			}
+			c06Eval(c, cs)
 			i++
 		}
 	}
@@ -299,7 +382,7 @@ func c06Gen(c *Ctx) {
 
 func init() {
 	register("C06", &PropDef{
-		Rule:   "signed updates for the standard secure-boot variables and arbitrary ASCII names (incl. empty and long), the global / image-security / random GUIDs, attribute masks {0x27, 0x67 (APPEND_WRITE), 7, 0, 0x40, all ones}, payloads {empty database, SHA-256 list, certificate list, one byte, 300 raw bytes}, two RSA keys x 9 certificate shapes, each produced in worker processes started with TZ=UTC, Asia/Tokyo, America/St_Johns and Pacific/Auckland (DST zones of both hemispheres), plus updates signed through a crypto.Signer that takes 1.1 s so that the clock moves during the call; in every second case the caller's value object is changed after the call and before the result is marshalled, and in two of five the signer is busy (returns an error) for its first one or two calls and the caller asks again. Layout is checked by an independent parser, the binding by encoding/asn1+crypto/rsa, go.mozilla.org/pkcs7 and the Lean Spec over the rebuilt buffer and over four wrong buffers; the output is reproduced byte for byte by the Lean model. Every case is non-trivial; distinct = distinct (zone, name, GUID, mask, payload, key, shape).",
+		Rule:   "signed updates for the standard secure-boot variables and arbitrary ASCII names (incl. empty and long), the global / image-security / random GUIDs, attribute masks {0x27, 0x67 (APPEND_WRITE), 7, 0, 0x40, all ones}, payloads {empty database, SHA-256 list, certificate list, one byte, 300 raw bytes}, two RSA keys x 9 certificate shapes, each produced in worker processes started with TZ=UTC, Asia/Tokyo, America/St_Johns and Pacific/Auckland (DST zones of both hemispheres), plus updates signed through a crypto.Signer that takes 1.1 s so that the clock moves during the call; in every second case the caller's value object is changed after the call and before the result is marshalled, and in two of five the signer is busy (returns an error) for its first one or two calls and the caller asks again; every third case is a SEQUENCE of two or three updates (other variables, masks, keys, payloads smaller / equal / larger than the earlier ones) signed one after the other by one caller in one process, whose results are all held and marshalled only after the last one was signed - each of them must still be the update that was signed. Layout is checked by an independent parser, the binding by encoding/asn1+crypto/rsa, go.mozilla.org/pkcs7 and the Lean Spec over the rebuilt buffer and over four wrong buffers; the output is reproduced byte for byte by the Lean model. Every case is non-trivial; distinct = distinct (zone, name, GUID, mask, payload, key, shape).",
 		Assume: []string{"variable names are ASCII (the property's domain); time is bracketed by the worker around the call (±1 s)"},
 		Eval:   c06Eval, Gen: c06Gen,
 	})
